@@ -20,6 +20,7 @@ PROP = {'drive': ['Font'],
                        'C01_file_example_cff',
                        'C01_file_roundtrip_layout',
                        'C01_file_roundtrip_cff_layout',
+                       'exG_budget',
                        'C01_file_example_layout_in_domain',
                        'C01_file_example_layout',
                        'C01_file_example_cff_layout_in_domain',
@@ -54,13 +55,15 @@ PROP = {'drive': ['Font'],
              'theorems (notably: strings Mac-Roman representable because Write also emits a Macintosh name table; '
              'REGULAR excludes BOLD/ITALIC; heights >= 0; int16 metrics; <= 4 distinct side tables; file < 4 GiB). GDEF/GSUB/GPOS: '
              'C01_file_roundtrip_layout / C01_file_roundtrip_cff_layout (Proofs/FontFileLayout.lean) instantiate the '
-             'layout decoders with the C08 readers (InfoA.gdefTok, InfoA.decTok gsubCodec 7 / gposCodec 9) - no abstract '
-             'decoder is left for these tables; domain: each present table is Info.encode / GdefV.encode of a value in '
-             'InfoOk / GdefOk (example: the 150-byte GSUB of C08 exG inside both example fonts, '
-             'C01_file_example_layout, C01_file_example_cff_layout). Limits inherited from C08: Info.read reads the '
-             'lookup list through LL.specRead (the specification reader of C08, tied to the Go reader by C08 streams, '
-             'not the checked-index model of C02), InfoOk carries the PartGood hypotheses of the per-lookup codecs, the '
-             'GDEF theorem is relational (GdefOk), and the decoded value enters the font model as a token of the bytes. '
+             'layout decoders with C08\'s MODEL OF THE GO READERS (InfoA.gdefTok = gdef.Read; InfoA.decTokGo gsubCodec 7 / '
+             'gposCodec 9 = Info.readGo = gtab.Read incl. readLookupList with the codec subtable readers, '
+             'Proofs/OtlInfoGo.lean) - no abstract decoder and no specification reader is left for these tables; domain: '
+             'each present table is Info.encode / GdefV.encode of a value in InfoOk / GdefOk within the reader budget '
+             '(BudgetOk: lookups + subtables <= 6000) (example: the 150-byte GSUB of C08 exG inside both example fonts, '
+             'exG_budget, C01_file_example_layout, C01_file_example_cff_layout). Limits inherited from C08: class tables '
+             'come back in normal form inside the codecs\' nf (one hypothesis hal remains inside gsub_ok_C2), GDEF '
+             'round-trips as an equation (gdef_roundtrip_eq), and the decoded value enters the font model as a token of '
+             'the bytes. '
              'The CFF table: C01_file_roundtrip_cff_c13 (Proofs/FontFileCffC13.lean) replaces the abstract decCff by '
              'decCffC13 T S = C13 readFont (header, INDEXes, Top/Private/Font DICTs, strings, charset, Encoding, FDSelect, '
              'all offsets) followed by viewOf S, and the guard by C13\'s domain (CffTableOk: the table is writeFont of a '
@@ -74,8 +77,9 @@ PROP = {'drive': ['Font'],
              'WIDTHS: C01_file_roundtrip_cff_t2 (Proofs/FontFileCffT2.lean) instantiates (1) for the advance widths: '
              'semT2 q ext runs T2.interp q (q = goQuirks = model of decodeCharString, C05) on every charstring C13 readFont '
              'returns, in the environment of its private DICT, and the widths Read returns are int16(trunc(g.width)) of the '
-             'interpreted glyphs; C01_t2_width_encoded gives the C04 width formula for encodeCharString output (hypothesis: '
-             'goQuirks = strict on those bytes, C05_quirks_irrelevant territory, not composed). Still explicit: ext (extent '
+             'interpreted glyphs; C01_t2_width_encoded gives the C04 width formula for encodeCharString output (hypotheses: '
+             'GlyphWF, steps <= 32767 (C04-bigstep), path deltas within +-32000 (CmdBnd, C05-clamp); via eng-t2\'s bridge '
+             'glyph_roundtrip_go - no hypothesis about decoder quirks is left). Still explicit: ext (extent '
              'of a decoded glyph), real, matrix, token; default/nominal widths that are not multiples of 2^-16 are rejected '
              'by the model (outside the domain). Example C01_file_example_cff_t2 (both charstrings interpreted in kernel). C01_file_roundtrip_cff is the '
              'OpenType/CFF flavour with every table around the outlines composed. The ligature GSUB that Read '
